@@ -30,6 +30,8 @@ Lemma counts_zero_true m : counts_zero m = true ↔
   (c_touch m = 0 ∧ c_create m = 0 ∧ c_sd m = 0 ∧ c_bal m = 0 ∧ c_nonce m = 0 ∧ c_code m = 0 ∧ c_stor m = 0)%Z.
 Proof. unfold counts_zero. rewrite bool_decide_eq_true. done. Qed.
 
+Ltac rj := cbv beta iota delta [set j_db j_objs j_destruct j_refund j_th j_ti j_logs j_logsize j_ala
+  j_als j_tstor j_entries j_muts j_revs j_nextrev j_bad mutation] in *.
 Ltac rs := unfold set in *; simpl in *.
 Local Ltac fin := f_equal; [f_equal; lia | unfold counts_zero; simpl; apply bool_decide_ext; lia].
 
@@ -155,19 +157,19 @@ Definition restores (j j' : jstate) (e : jentry) : Prop :=
 Lemma undo_create_object j a :
   mloc j a → j_objs j !! a = None → restores j (create_object a j) (JCreateObject a).
 Proof.
-  intros Hl Ho. split; [unf; by rs|].
-  apply (undo1_mut _ _ (JCreateObject a) a KCreate 0); [done|done|unf; by rs|unf; by rs|].
-  unf. destruct j; rs. f_equal. by rewrite delete_insert.
+  intros Hl Ho. split; [destruct j; unf; rj; by simpl|].
+  apply (undo1_mut _ _ (JCreateObject a) a KCreate 0); [done|done|destruct j; unf; rj; by simpl|destruct j; unf; rj; by simpl|].
+  destruct j; unf; rj; simpl. f_equal. by rewrite delete_insert.
 Qed.
 
 Lemma undo_set_balance j a o v :
   mloc j a → j_objs j !! a = Some o →
   restores j (obj_set_balance a o v j) (JBalance a (a_bal (o_data o))).
 Proof.
-  intros Hl Ho. split; [unf; by rs|].
-  apply (undo1_mut _ _ (JBalance a (a_bal (o_data o))) a KBalance (a_bal (o_data o))); [done|done|unf; by rs|..].
-  - unf. rs. by rewrite lookup_insert insert_insert.
-  - unf. destruct j; rs. unfold with_obj; rs. rewrite lookup_insert. rs. f_equal.
+  intros Hl Ho. split; [destruct j; unf; rj; by simpl|].
+  apply (undo1_mut _ _ (JBalance a (a_bal (o_data o))) a KBalance (a_bal (o_data o))); [done|done|destruct j; unf; rj; by simpl|..].
+  - destruct j; unf; rj. by rewrite lookup_insert insert_insert.
+  - destruct j; unf; rj; simpl; unfold with_obj; rj; rewrite lookup_insert; rj; simpl; f_equal.
     rewrite insert_insert. apply insert_id. rewrite Ho. f_equal. by destruct o as [? [] ? ? ? ?].
 Qed.
 
@@ -175,10 +177,10 @@ Lemma undo_set_nonce j a o v :
   mloc j a → j_objs j !! a = Some o →
   restores j (obj_set_nonce a o v j) (JNonce a (a_nonce (o_data o))).
 Proof.
-  intros Hl Ho. split; [unf; by rs|].
-  apply (undo1_mut _ _ (JNonce a (a_nonce (o_data o))) a KNonce (a_nonce (o_data o))); [done|done|unf; by rs|..].
-  - unf. rs. by rewrite lookup_insert insert_insert.
-  - unf. destruct j; rs. unfold with_obj; rs. rewrite lookup_insert. rs. f_equal.
+  intros Hl Ho. split; [destruct j; unf; rj; by simpl|].
+  apply (undo1_mut _ _ (JNonce a (a_nonce (o_data o))) a KNonce (a_nonce (o_data o))); [done|done|destruct j; unf; rj; by simpl|..].
+  - destruct j; unf; rj. by rewrite lookup_insert insert_insert.
+  - destruct j; unf; rj; simpl; unfold with_obj; rj; rewrite lookup_insert; rj; simpl; f_equal.
     rewrite insert_insert. apply insert_id. rewrite Ho. f_equal. by destruct o as [? [] ? ? ? ?].
 Qed.
 
@@ -186,10 +188,10 @@ Lemma undo_set_code j a o v :
   mloc j a → j_objs j !! a = Some o →
   restores j (obj_set_code a o v j) (JCode a (a_code (o_data o))).
 Proof.
-  intros Hl Ho. split; [unf; by rs|].
-  apply (undo1_mut _ _ (JCode a (a_code (o_data o))) a KCode (a_code (o_data o))); [done|done|unf; by rs|..].
-  - unf. rs. by rewrite lookup_insert insert_insert.
-  - unf. destruct j; rs. unfold with_obj; rs. rewrite lookup_insert. rs. f_equal.
+  intros Hl Ho. split; [destruct j; unf; rj; by simpl|].
+  apply (undo1_mut _ _ (JCode a (a_code (o_data o))) a KCode (a_code (o_data o))); [done|done|destruct j; unf; rj; by simpl|..].
+  - destruct j; unf; rj. by rewrite lookup_insert insert_insert.
+  - destruct j; unf; rj; simpl; unfold with_obj; rj; rewrite lookup_insert; rj; simpl; f_equal.
     rewrite insert_insert. apply insert_id. rewrite Ho. f_equal. by destruct o as [? [] ? ? ? ?].
 Qed.
 
@@ -212,12 +214,12 @@ Lemma undo_set_state j a o k v :
   (∀ d, o_dirty o !! k = Some d → d ≠ committed j a o k) →
   restores j (obj_set_state a o k v j) (JStorage a k (get_state j a o k) (committed j a o k)).
 Proof.
-  intros Hl Ho Hd. split; [unf; by rs|].
+  intros Hl Ho Hd. split; [destruct j; unf; rj; by simpl|].
   apply (undo1_mut _ _ (JStorage a k (get_state j a o k) (committed j a o k)) a KStorage 0);
-    [done|done|unf; by rs|unf; by rs|].
-  unf. destruct j; rs. unfold with_obj; rs. rewrite lookup_insert. rs. f_equal.
+    [done|done|destruct j; unf; rj; by simpl|destruct j; unf; rj; by simpl|].
+  destruct j; unf; rj; simpl; unfold with_obj; rj; rewrite lookup_insert; rj; simpl; f_equal.
   rewrite insert_insert. apply insert_id. rewrite Ho. f_equal.
-  apply set_state_undo. unfold get_state. destruct (o_dirty o !! k) eqn:E; [|done].
+  symmetry. apply set_state_undo. unfold get_state. destruct (o_dirty o !! k) eqn:E; [|done].
   split; [done|]. by apply Hd.
 Qed.
 
@@ -225,9 +227,9 @@ Lemma undo_self_destruct j a o :
   mloc j a → j_objs j !! a = Some o → o_sd o = false →
   restores j (obj_self_destruct a o j) (JSelfDestruct a).
 Proof.
-  intros Hl Ho Hs. split; [unf; by rs|].
-  apply (undo1_mut _ _ (JSelfDestruct a) a KSelfDestruct 0); [done|done|unf; by rs|unf; by rs|].
-  unf. destruct j; rs. unfold with_obj; rs. rewrite lookup_insert. rs. f_equal.
+  intros Hl Ho Hs. split; [destruct j; unf; rj; by simpl|].
+  apply (undo1_mut _ _ (JSelfDestruct a) a KSelfDestruct 0); [done|done|destruct j; unf; rj; by simpl|destruct j; unf; rj; by simpl|].
+  destruct j; unf; rj; simpl; unfold with_obj; rj; rewrite lookup_insert; rj; simpl; f_equal.
   rewrite insert_insert. apply insert_id. rewrite Ho. f_equal. destruct o; simpl in *. by subst.
 Qed.
 
@@ -235,9 +237,9 @@ Lemma undo_create_contract j a o :
   j_objs j !! a = Some o → o_new o = false →
   restores j (j_append (JCreateContract a) (put_obj a (o <| o_new := true |>) j)) (JCreateContract a).
 Proof.
-  intros Ho Hs. split; [unf; by rs|].
-  apply undo1_nomut; [done|unf; by rs|].
-  unf. destruct j; rs. unfold with_obj; rs. rewrite lookup_insert. rs. f_equal.
+  intros Ho Hs. split; [destruct j; unf; rj; by simpl|].
+  apply (undo1_nomut _ _ (JCreateContract a)); [done|destruct j; unf; rj; by simpl|].
+  destruct j; unf; rj; simpl; unfold with_obj; rj; rewrite lookup_insert; rj; simpl; f_equal.
   rewrite insert_insert. apply insert_id. rewrite Ho. f_equal. destruct o; simpl in *. by subst.
 Qed.
 
@@ -245,28 +247,28 @@ Lemma undo_touch j a :
   mloc j a → a ≠ ripemd → restores j (touch_change a j) (JTouch a).
 Proof.
   intros Hl Hr. unfold touch_change. rewrite bool_decide_false //.
-  split; [unf; by rs|].
-  apply (undo1_mut _ _ (JTouch a) a KTouch 0); [done|done|unf; by rs|unf; by rs|].
-  unf. by destruct j; rs.
+  split; [destruct j; unf; rj; by simpl|].
+  apply (undo1_mut _ _ (JTouch a) a KTouch 0); [done|done|destruct j; unf; rj; by simpl|destruct j; unf; rj; by simpl|].
+  destruct j; unf; rj; by simpl.
 Qed.
 
 Lemma undo_refund j v :
   restores j ((j_append (JRefund (j_refund j)) j) <| j_refund := v |>) (JRefund (j_refund j)).
 Proof.
-  split; [unf; by rs|]. apply undo1_nomut; [done|unf; by rs|]. unf. by destruct j; rs.
+  split; [destruct j; unf; rj; by simpl|]. apply (undo1_nomut _ _ (JRefund (j_refund j))); [done|destruct j; unf; rj; by simpl|]. destruct j; unf; rj; by simpl.
 Qed.
 Lemma undo_refund' j :
   restores j (j_append (JRefund (j_refund j)) j) (JRefund (j_refund j)).
 Proof.
-  split; [unf; by rs|]. apply undo1_nomut; [done|unf; by rs|]. unf. by destruct j; rs.
+  split; [destruct j; unf; rj; by simpl|]. apply (undo1_nomut _ _ (JRefund (j_refund j))); [done|destruct j; unf; rj; by simpl|]. destruct j; unf; rj; by simpl.
 Qed.
 
 Lemma undo_al_addr j a :
   j_ala j !! a = None →
   restores j (j_append (JALAddr a) (j <| j_ala ::= <[a := (-1)%Z]> |>)) (JALAddr a).
 Proof.
-  intros H. split; [unf; by rs|]. apply undo1_nomut; [done|unf; by rs|].
-  unf. destruct j; rs. f_equal. by rewrite delete_insert.
+  intros H. split; [destruct j; unf; rj; by simpl|]. apply (undo1_nomut _ _ (JALAddr a)); [done|destruct j; unf; rj; by simpl|].
+  destruct j; unf; rj; simpl. f_equal. by rewrite delete_insert.
 Qed.
 
 Lemma undo_transient j a k v :
@@ -276,8 +278,8 @@ Lemma undo_transient j a k v :
                 <| j_tstor ::= (if v =? 0 then delete (a, k) else <[(a, k) := v]>) |>)
            (JTransient a k prev).
 Proof.
-  intros H prev. split; [unf; by rs|]. apply undo1_nomut; [done|unf; by rs|].
-  unf. subst prev. destruct j; rs. f_equal.
+  intros H prev. split; [destruct j; unf; rj; by simpl|]. apply (undo1_nomut _ _ (JTransient a k prev)); [done|destruct j; unf; rj; by simpl|].
+  subst prev. destruct j; unf; rj; simpl. f_equal.
   destruct (j_tstor !! (a, k)) as [x|] eqn:E; simpl.
   - specialize (H x eq_refl). destruct (x =? 0) eqn:Ex; [apply N.eqb_eq in Ex; done|].
     destruct (v =? 0); [by rewrite insert_delete_insert insert_id|by rewrite insert_insert insert_id].
@@ -290,11 +292,248 @@ Lemma undo_log j l :
                 <| j_logs ::= <[j_th j := default [] (j_logs j !! j_th j) ++ [l]]> |>
                 <| j_logsize ::= N.succ |>) (JAddLog (j_th j)).
 Proof.
-  intros H. split; [unf; by rs|]. apply undo1_nomut; [done|unf; by rs|].
-  unf. destruct j; rs. rewrite lookup_insert. simpl.
+  intros H. split; [destruct j; unf; rj; by simpl|]. apply (undo1_nomut _ _ (JAddLog (j_th j))); [done|destruct j; unf; rj; by simpl|].
+  destruct j; unf; rj; simpl. rewrite lookup_insert. simpl.
   destruct (j_logs !! j_th) as [[|x xs]|] eqn:E; simpl; [done| |].
   - destruct (xs ++ [l]) eqn:E2; [by destruct xs|]. rewrite -E2. rs. rewrite N.pred_succ. f_equal.
     change (x :: xs ++ [l]) with ((x :: xs) ++ [l]). rewrite removelast_last.
     by rewrite insert_insert insert_id.
   - rs. rewrite N.pred_succ. f_equal. by rewrite delete_insert.
+Qed.
+
+(* ---- access list: AddSlot ---- *)
+Definition al_loc (j : jstate) (a : addr) : Prop :=
+  ∀ idx, j_ala j !! a = Some idx →
+    idx = (-1)%Z ∨ ((0 ≤ idx)%Z ∧ ∃ sm, j_als j !! Z.to_nat idx = Some sm ∧ sm ≠ ∅).
+
+Lemma revert_to_1 j j' e : restores j j' e → revert_to (length (j_entries j)) j' = j.
+Proof.
+  intros [He Hu]. unfold revert_to. rewrite He. simpl length.
+  replace (S (length (j_entries j)) - length (j_entries j))%nat with 1%nat by lia.
+  rewrite revert_n_S He. simpl. done.
+Qed.
+
+Lemma revert_to_2 j j1 j2 e1 e2 :
+  restores j j1 e1 → restores j1 j2 e2 → revert_to (length (j_entries j)) j2 = j.
+Proof.
+  intros [He1 Hu1] [He2 Hu2]. unfold revert_to. rewrite He2 He1. simpl length.
+  replace (S (S (length (j_entries j))) - length (j_entries j))%nat with 2%nat by lia.
+  rewrite revert_n_S He2 Hu2 revert_n_S He1 Hu1. done.
+Qed.
+
+Lemma revert_to_0 j : revert_to (length (j_entries j)) j = j.
+Proof. unfold revert_to. by rewrite Nat.sub_diag. Qed.
+
+Lemma undo_al_slot_fresh j a k :
+  (j_ala j !! a = None ∨ j_ala j !! a = Some (-1)%Z) →
+  let j0 := match j_ala j !! a with None => j <| j_ala ::= <[a := (-1)%Z]> |> | _ => j end in
+  restores j0
+    (j_append (JALSlot a k)
+       (j0 <| j_ala ::= <[a := Z.of_nat (length (j_als j))]> |> <| j_als ::= (λ l, l ++ [{[k]}]) |>))
+    (JALSlot a k).
+Proof.
+  intros H j0. subst j0. split; [destruct j; unf; rj; simpl; by destruct (j_ala !! a)|].
+  apply (undo1_nomut _ _ (JALSlot a k)); [done|destruct j; unf; rj; simpl; by destruct (j_ala !! a)|].
+  destruct j; unf; rj; simpl in *.
+  assert (Hs : ({[k]} : gset slot) ∖ {[k]} = ∅) by set_solver.
+  destruct H as [H|H]; rewrite H; rj; simpl; unfold al_delete_slot; rj; simpl;
+    rewrite lookup_insert; simpl;
+    (destruct (Z.of_nat (length j_als) <? 0)%Z eqn:E; [apply Z.ltb_lt in E; lia|]);
+    rewrite Nat2Z.id lookup_app_r // Nat.sub_diag; simpl; rewrite Hs bool_decide_true //;
+    rj; simpl; f_equal; rewrite ?insert_insert ?take_app //.
+  by rewrite insert_id.
+Qed.
+
+Lemma undo_al_slot_old j a k idx sm :
+  j_ala j !! a = Some idx → (0 ≤ idx)%Z → j_als j !! Z.to_nat idx = Some sm → sm ≠ ∅ → k ∉ sm →
+  restores j (j_append (JALSlot a k) (j <| j_als ::= <[Z.to_nat idx := {[k]} ∪ sm]> |>)) (JALSlot a k).
+Proof.
+  intros Ha Hi Hs Hne Hk. split; [destruct j; unf; rj; by simpl|].
+  apply (undo1_nomut _ _ (JALSlot a k)); [done|destruct j; unf; rj; by simpl|].
+  destruct j; unf; rj; simpl in *. unfold al_delete_slot; rj; simpl. rewrite Ha.
+  destruct (idx <? 0)%Z eqn:E; [apply Z.ltb_lt in E; lia|].
+  rewrite list_lookup_insert; [by eapply lookup_lt_Some|]. simpl.
+  assert (Hd : ({[k]} ∪ sm) ∖ {[k]} = sm) by set_solver. rewrite Hd bool_decide_false //.
+  rj; simpl. f_equal. by rewrite list_insert_insert list_insert_id.
+Qed.
+
+(* ------------------------------------------------------------------ *)
+(* well-formedness of implementation states *)
+Record wf (j : jstate) : Prop := {
+  wf_bad : j_bad j = false;
+  wf_muts : ∀ a, mloc j a;
+  wf_al : ∀ a, al_loc j a;
+  wf_logs : ∀ th, j_logs j !! th ≠ Some [];
+  wf_tstor : ∀ k x, j_tstor j !! k = Some x → x ≠ 0;
+  wf_dirty : ∀ a o k d, j_objs j !! a = Some o → o_dirty o !! k = Some d → d ≠ committed j a o k
+}.
+
+Definition core_op (o : op) : bool :=
+  match o with OSnapshot | ORevert _ | OFinalise _ | OTxStart _ _ _ _ _ _ _ => false | _ => true end.
+
+(* the RIPEMD-160 zero-value touch: the one call whose journal.mutations effect is
+   deliberately NOT undone by a revert *)
+Definition sticky_j (j : jstate) (o : op) : bool :=
+  match o with
+  | OAddBalance a v =>
+      bool_decide (a = ripemd) && (v =? 0) &&
+      match j_objs j !! a with Some o => obj_empty o | None => true end
+  | _ => false
+  end.
+
+Lemma mloc_create j a : mloc j a → mloc (create_object a j) a.
+Proof.
+  intros H m. destruct j; unf; rj; simpl in *. rewrite lookup_insert. intros [= <-].
+  pose proof (mok_add_stash KCreate 0 (default mstate0 (j_muts !! a))) as Hm.
+  assert (Hk : mok (default mstate0 (j_muts !! a))).
+  { destruct (j_muts !! a) eqn:E; simpl; [by apply H|apply mok0]. }
+  split; [by apply Hm|]. by apply counts_zero_add.
+Qed.
+
+Lemma gon j a :
+  wf j →
+  let '(j1, o) := get_or_new_j a j in
+  j_objs j1 !! a = Some o ∧ mloc j1 a ∧ (j1 = j ∨ restores j j1 (JCreateObject a)) ∧
+  (∀ k d, o_dirty o !! k = Some d → d ≠ committed j1 a o k).
+Proof.
+  intros W. unfold get_or_new_j. destruct (j_objs j !! a) as [o|] eqn:Ho.
+  - split; [done|]. split; [apply W|]. split; [by left|]. intros k d. by eapply wf_dirty.
+  - split; [destruct j; unf; rj; simpl; by rewrite lookup_insert|].
+    split; [apply mloc_create, W|]. split; [right; apply undo_create_object; [apply W|done]|].
+    intros k d. by rewrite lookup_empty.
+Qed.
+
+Lemma finish j j1 j2 e :
+  (j1 = j ∨ restores j j1 (JCreateObject e.1)) → restores j1 j2 e.2 →
+  revert_to (length (j_entries j)) j2 = j.
+Proof. intros [->|H1] H2; [by eapply revert_to_1|by eapply revert_to_2]. Qed.
+
+Theorem restore j o :
+  wf j → core_op o = true → op_ok j o = true → sticky_j j o = false →
+  revert_to (length (j_entries j)) (step_j j o).1 = j.
+Proof.
+  intros W Hc Hok Hst. destruct o; try done; simpl in *.
+  - (* CreateAccount *)
+    apply bool_decide_eq_true in Hok. eapply revert_to_1, undo_create_object; [apply W|done].
+  - (* CreateContract *)
+    destruct (j_objs j !! a) as [o|] eqn:Ho; simpl; [|apply revert_to_0].
+    destruct (o_new o) eqn:Hn; simpl; [apply revert_to_0|].
+    by eapply revert_to_1, undo_create_contract.
+  - (* AddBalance *)
+    pose proof (gon j a W) as G. unfold get_or_new_j in *.
+    destruct (j_objs j !! a) as [o|] eqn:Ho; simpl in *; destruct G as (G1 & G2 & G3 & G4).
+    + destruct (v =? 0) eqn:Ev; simpl.
+      * destruct (obj_empty o) eqn:Ee; [|apply revert_to_0].
+        eapply revert_to_1, undo_touch; [apply W|].
+        rewrite !andb_true_r in Hst. by apply bool_decide_eq_false in Hst.
+      * eapply revert_to_1, undo_set_balance; [apply W|done].
+    + destruct (v =? 0) eqn:Ev; simpl.
+      * change (obj_empty (new_object None)) with true. simpl.
+        rewrite !andb_true_r in Hst. apply bool_decide_eq_false in Hst.
+        eapply (finish _ _ _ (a, JTouch a)); [exact G3|]. by apply undo_touch.
+      * eapply (finish _ _ _ (a, _)); [exact G3|]. by apply undo_set_balance.
+  - (* SubBalance *)
+    pose proof (gon j a W) as G. destruct (get_or_new_j a j) as [j1 o] eqn:Eg.
+    destruct G as (G1 & G2 & G3 & G4). destruct (v =? 0); simpl.
+    + destruct G3 as [->|G3]; [apply revert_to_0|by eapply revert_to_1].
+    + eapply (finish _ _ _ (a, _)); [exact G3|]. by apply undo_set_balance.
+  - pose proof (gon j a W) as G. destruct (get_or_new_j a j) as [j1 o] eqn:Eg.
+    destruct G as (G1 & G2 & G3 & G4). simpl.
+    eapply (finish _ _ _ (a, _)); [exact G3|]. by apply undo_set_balance.
+  - pose proof (gon j a W) as G. destruct (get_or_new_j a j) as [j1 o] eqn:Eg.
+    destruct G as (G1 & G2 & G3 & G4). simpl.
+    eapply (finish _ _ _ (a, _)); [exact G3|]. by apply undo_set_nonce.
+  - pose proof (gon j a W) as G. destruct (get_or_new_j a j) as [j1 o] eqn:Eg.
+    destruct G as (G1 & G2 & G3 & G4). simpl.
+    eapply (finish _ _ _ (a, _)); [exact G3|]. by apply undo_set_code.
+  - (* SetState *)
+    pose proof (gon j a W) as G. destruct (get_or_new_j a j) as [j1 o] eqn:Eg.
+    destruct G as (G1 & G2 & G3 & G4). destruct (get_state j1 a o k =? v); simpl.
+    + destruct G3 as [->|G3]; [apply revert_to_0|by eapply revert_to_1].
+    + eapply (finish _ _ _ (a, _)); [exact G3|]. apply undo_set_state; [done|done|apply G4].
+  - (* SetTransient *)
+    destruct (default 0 (j_tstor j !! (a, k)) =? v); simpl; [apply revert_to_0|].
+    eapply revert_to_1, undo_transient. intros x. apply W.
+  - (* SelfDestruct *)
+    destruct (j_objs j !! a) as [o|] eqn:Ho; simpl; [|apply revert_to_0].
+    destruct (o_sd o) eqn:Hs; simpl; [apply revert_to_0|].
+    eapply revert_to_1, undo_self_destruct; [apply W|done|done].
+  - destruct (j_objs j !! a) as [o|] eqn:Ho; simpl; [|apply revert_to_0].
+    destruct (o_new o && negb (o_sd o)) eqn:Hs; simpl; [|apply revert_to_0].
+    apply andb_true_iff in Hs as [_ Hs]. apply negb_true_iff in Hs.
+    eapply revert_to_1, undo_self_destruct; [apply W|done|done].
+  - (* AddAddress *)
+    unfold al_add_address. destruct (j_ala j !! a) eqn:Ha; simpl; [apply revert_to_0|].
+    by eapply revert_to_1, undo_al_addr.
+  - (* AddSlot *)
+    unfold al_add_slot. pose proof (wf_al _ W a) as Hal. unfold al_loc in Hal.
+    destruct (j_ala j !! a) as [idx|] eqn:Ha.
+    + destruct (Hal idx eq_refl) as [->|(Hi & sm & Hs & Hne)].
+      * simpl. pose proof (undo_al_slot_fresh j a k (or_intror Ha)) as H. rewrite Ha in H.
+        by eapply revert_to_1.
+      * destruct (idx =? -1)%Z eqn:E; [apply Z.eqb_eq in E; lia|]. rewrite Hs.
+        case_bool_decide; simpl; [apply revert_to_0|].
+        by eapply revert_to_1, undo_al_slot_old.
+    + simpl. set (j0 := j_append (JALAddr a) (j <| j_ala ::= <[a := (-1)%Z]> |>)).
+      assert (Ha0 : j_ala j0 !! a = Some (-1)%Z) by (subst j0; destruct j; unf; rj; simpl; by rewrite lookup_insert).
+      pose proof (undo_al_slot_fresh j0 a k (or_intror Ha0)) as H. rewrite Ha0 in H.
+      eapply revert_to_2; [by apply undo_al_addr|].
+      replace (j_append (JALSlot a k) (j_append (JALAddr a) (j <| j_ala ::= <[a:=Z.of_nat (length (j_als j))]> |> <| j_als ::= λ l, l ++ [{[k]}] |>)))
+        with (j_append (JALSlot a k) (j0 <| j_ala ::= <[a:=Z.of_nat (length (j_als j0))]> |> <| j_als ::= λ l, l ++ [{[k]}] |>)); [exact H|].
+      subst j0. destruct j; unf; rj; simpl. f_equal. by rewrite insert_insert.
+  - apply (revert_to_1 _ _ _ (undo_refund j _)).
+  - destruct (j_refund j <? g); simpl.
+    + apply (revert_to_1 _ _ _ (undo_refund' j)).
+    + apply (revert_to_1 _ _ _ (undo_refund j _)).
+  - eapply revert_to_1, undo_log. apply W.
+Qed.
+
+(* ------------------------------------------------------------------ *)
+(* revert is a left inverse of any run of journalled calls *)
+Lemma undo1_entries j : j_entries (undo1 j) = tail (j_entries j).
+Proof. unfold undo1. destruct (j_entries j) eqn:E; [by rewrite E|]. by destruct (unmutate _ _). Qed.
+
+Lemma revert_n_length n j : length (j_entries (revert_n n j)) = (length (j_entries j) - n)%nat.
+Proof.
+  revert j. induction n as [|n IH]; intros j; [simpl; lia|].
+  rewrite revert_n_S. destruct (j_entries j) eqn:E; [by rewrite E|].
+  rewrite IH undo1_entries E. simpl. lia.
+Qed.
+
+Lemma revert_to_trans idx idx1 j :
+  (idx ≤ idx1)%nat → revert_to idx j = revert_to idx (revert_to idx1 j).
+Proof.
+  intros H. unfold revert_to. rewrite revert_n_length -revert_n_add. f_equal. lia.
+Qed.
+
+Fixpoint run_ok (j : jstate) (ops : list op) : Prop :=
+  match ops with
+  | [] => True
+  | o :: r => wf j ∧ core_op o = true ∧ op_ok j o = true ∧ sticky_j j o = false ∧ run_ok (step_j j o).1 r
+  end.
+
+Theorem restore_run j ops :
+  run_ok j ops → revert_to (length (j_entries j)) (run_j j ops) = j.
+Proof.
+  revert j. induction ops as [|o r IH]; intros j H; [apply revert_to_0|].
+  destruct H as (W & Hc & Hok & Hst & Hr). simpl.
+  pose proof (restore j o W Hc Hok Hst) as R1. specialize (IH _ Hr).
+  set (j1 := (step_j j o).1) in *.
+  destruct (decide (length (j_entries j) ≤ length (j_entries j1))%nat) as [Hle|Hgt].
+  - rewrite (revert_to_trans _ (length (j_entries j1))) //. by rewrite IH.
+  - assert (j1 = j) as E.
+    { rewrite -R1. unfold revert_to. replace (length (j_entries j1) - length (j_entries j))%nat with 0%nat by lia. done. }
+    rewrite E in Hgt. lia.
+Qed.
+
+(* the initial state is well-formed *)
+Lemma wf_init db : wf (init_j db).
+Proof.
+  split; simpl.
+  - done.
+  - intros a m. by rewrite lookup_empty.
+  - intros a idx. by rewrite lookup_empty.
+  - intros th. by rewrite lookup_empty.
+  - intros k x. by rewrite lookup_empty.
+  - intros a o k d (x & <- & _)%lookup_fmap_Some Hd. simpl in Hd. by apply lookup_empty_Some in Hd.
 Qed.
